@@ -14,7 +14,9 @@ META = {
                   "runs at most once, a side that reports closed has run it exactly once and released everything, a side that closes / is told to close / meets the failure while "
                   "serving is closed and clean when control returns, close is idempotent - all of it also when the service's disconnect hook raises (the hook outcome is a parameter "
                   "of every theorem; c11_raising_hook_refuted is the counterpart for a tree whose _cleanup does not clear in a finally, F25); the refutation for a tree whose "
-                  "serve() does not close when EOFError escapes _dispatch (F6). The second sentence over the requests of a side (c11_ended_nobody_waits, c11_no_phantom_value, c11_issue_after_end): once a side has ended every request "
+                  "serve() does not close when EOFError escapes _dispatch (F6). "Reports closed" is read at the moments control is back with the caller (entry points return): WHILE close() runs - inside the before_closed hook or a blocking "
+                  "close request - `closed` is already True with the disconnect hook not yet run (protocol.py sets the flag first); another thread can observe that. "
+                  "The second sentence over the requests of a side (c11_ended_nobody_waits, c11_no_phantom_value, c11_issue_after_end): once a side has ended every request "
                   "has its value exactly if the peer's reply was dispatched, else EOFError; threads BLOCKED in poll/wait at that moment are outside the model and are the "
                   "scheduler scenarios of the harness. "
                   "The guarded shapes of close/_cleanup/_handle_close/serve/serve_all are regenerated from the source; the harness injects a failure at every transport call and at "
@@ -472,6 +474,42 @@ def real_transport_phase(ctx):
                     conn.close()
                 except Exception:
                     pass
+        # a thread of THIS side is blocked in wait() (no expiry) when another thread of this side calls close(): it must not hang
+        import threading as _threading, time as _time
+        case = {"real_transport": kind, "local_close_while_waiting": True}
+        stream, kill_peer, feed = mk()
+        svc = Svc("A")
+        conn = Connection(svc, Channel(stream), config={})
+        ctx.case(("real-local-close", kind), nontrivial=True, sample=case)
+        ctx.count("real-transport:local-close-while-a-thread-waits:" + kind)
+        got = []
+
+        def waiter():
+            try:
+                conn.async_request(1, b"x").wait()
+                got.append("returned")
+            except EOFError:
+                got.append("EOFError")
+            except BaseException as e:
+                got.append(type(e).__name__)
+        th = _threading.Thread(target=waiter, daemon=True)
+        th.start()
+        t0 = _time.time()
+        while not conn._recvlock.locked() and _time.time() - t0 < 20:      # until the waiter is inside poll, holding the receive lock
+            _time.sleep(0.01)
+        _time.sleep(0.05)
+        try:
+            conn.close()
+        except Exception:
+            pass
+        th.join(8)
+        if th.is_alive():
+            ctx.violation("waiter-not-woken-by-local-close:" + kind, case, observed="still blocked 8 s after close() returned", expected="EOFError",
+                          what="a thread blocked in wait() (no expiry) on a %s stream stays blocked after another thread of the same side closed the connection" % kind)
+            kill_peer()        # lets the blocked thread go
+            th.join(5)
+        elif got != ["EOFError"]:
+            ctx.violation("waiter-after-local-close-got:" + str(got)[:30] + ":" + kind, case, observed=got, expected="EOFError", what="a waiter whose connection was closed under it did not fail with EOFError")
 
 def run(ctx):
     model = C.Model("lifecycle"); model = model if model.available() else None
@@ -479,7 +517,7 @@ def run(ctx):
     ctx.coverage_extra["rule"] = ("workloads {sync, async, nested callback, references both ways, fire-and-forget callback} x close orders {AB, BA, A, B, none}; for each a clean run counts the "
                                   "(AB/BA: the second side closes after it has noticed; A|B, B|A: both close at once, each with the other's close request unread) - a clean run counts the "
                                   "transport calls of both sides, then one failure is injected at every individual poll/read/write call index of each side, and for writes additionally after "
-                                  "k bytes of the packet (quick: k in {0,1,len/2,len-1}; thorough: more offsets); non-trivial = a fault was actually hit; distinct by (workload, closes, fault)")
+                                  "k bytes of the packet (quick: k in {0,1,7,13}; thorough: a dozen offsets up to 40); non-trivial = a fault was actually hit; distinct by (workload, closes, fault)")
     mcases, meta = [], []
     total_points = 0
     for wl in WORKLOADS:
